@@ -95,6 +95,8 @@ def sh(cmd, **kw):
 def prepare():
     os.makedirs(SCR, exist_ok=True)
     sh(f"rsync -a --delete --exclude target /repo/ {MREPO}/")
+    # rsync restores old mtimes: cargo would take a stale artifact of the previous mutant for fresh
+    sh(f"find {MREPO}/src {MREPO}/derive/src -name '*.rs' -exec touch {{}} +")
     sh(f"rsync -a --delete --exclude target /verif/harness/ {MH}/")
     sh(f"sed -i 's#path = \"/repo\"#path = \"{MREPO}\"#' {MH}/Cargo.toml {MH}/http/Cargo.toml")
     sh(f"sed -i 's#target-dir = \"/verif/target\"#target-dir = \"{SCR}/target\"#' {MH}/.cargo/config.toml")
